@@ -405,3 +405,665 @@ Proof.
   apply fetch_and_update_window. exact V.
 Qed.
 End Handout.
+
+(** ** no debug assertion / expect of the worker is reachable *)
+Section NoPanic.
+Variable pol : path -> option bool.
+Variable decay : Q -> N -> N -> Q.
+
+(* the active slot's fingerprint is cached *)
+Definition AIp (cs : list entry) (act : option path) : Prop :=
+  forall a, act = Some a -> exists e, In e cs /\ e_fp e = p_fp a.
+
+Lemma AIp_None cs : AIp cs None.
+Proof. intros a H. discriminate. Qed.
+
+Lemma AIp_paths cs cs' act : map e_path cs' = map e_path cs -> AIp cs act -> AIp cs' act.
+Proof.
+  intros E H a Ha. destruct (H a Ha) as (e & A & B).
+  apply (in_map e_path) in A. rewrite <- E in A. apply in_map_iff in A. destruct A as (e' & A1 & A2).
+  exists e'. split; [exact A2|]. unfold e_fp in *. rewrite A1. exact B.
+Qed.
+
+Lemma AIp_perm cs cs' act : Permutation cs cs' -> AIp cs act -> AIp cs' act.
+Proof.
+  intros P H a Ha. destruct (H a Ha) as (e & A & B). exists e. split; [eapply Permutation_in; eauto|exact B].
+Qed.
+
+Lemma fm_remove_fp fp fm p fm' : fm_remove fp fm = Some (p, fm') -> p_fp p = fp.
+Proof.
+  revert p fm'. induction fm as [|q r IH]; intros p fm' E; cbn in E; [discriminate|].
+  destruct (p_fp q =? fp) eqn:Eq.
+  - inv E. apply N.eqb_eq. exact Eq.
+  - destruct (fm_remove fp r) as [[p0 r']|]; [|discriminate]. inv E. eapply IH. reflexivity.
+Qed.
+
+Definition has_fp (f : N) (cs : list entry) : bool := existsb (fun e => e_fp e =? f) cs.
+
+Lemma retain_no_fp c now f cs : forall fm act,
+  has_fp f cs = false -> snd (retain c now (Some f) cs fm act) = act.
+Proof.
+  induction cs as [|e r IH]; intros fm act H; cbn; [reflexivity|].
+  cbn in H. apply orb_false_iff in H. destruct H as [H1 H2].
+  destruct (fm_remove (e_fp e) fm) as [[p fm1]|].
+  - rewrite H1.
+    specialize (IH fm1 act H2). destruct (retain c now (Some f) r fm1 act) as [[r' fm''] act'']. cbn in *. exact IH.
+  - rewrite H1.
+    specialize (IH fm act H2). destruct (retain c now (Some f) r fm act) as [[r' fm''] act'']. cbn in *. exact IH.
+Qed.
+
+Lemma retain_has_fp c now f cs : forall fm act,
+  has_fp f cs = true ->
+  let '(cs', _, act') := retain c now (Some f) cs fm act in
+  act' = None \/ exists e', In e' cs' /\ e_fp e' = f /\ act' = Some (e_path e').
+Proof.
+  induction cs as [|e r IH]; intros fm act H; [discriminate|].
+  cbn [retain].
+  set (efm := match fm_remove (e_fp e) fm with
+              | Some (p, fm') => (mkEntry p (e_rel e), fm')
+              | None => (e, fm)
+              end).
+  assert (Hfp : e_fp (fst efm) = e_fp e).
+  { subst efm. destruct (fm_remove (e_fp e) fm) as [[p fm1]|] eqn:Er; [|reflexivity].
+    cbn. unfold e_fp at 1. cbn. eapply fm_remove_fp. exact Er. }
+  destruct efm as [e' fm1]. cbn in Hfp.
+  set (keep := negb (is_expired c now (e_path e'))).
+  set (act1 := if optN_eq (Some (e_fp e)) (Some f) then (if keep then Some (e_path e') else None) else act).
+  destruct (has_fp f r) eqn:Hr.
+  - specialize (IH fm1 act1 eq_refl). destruct (retain c now (Some f) r fm1 act1) as [[r' fm''] act''].
+    destruct IH as [IH|(x & A & B & C)]; [left; exact IH|].
+    right. exists x. split; [destruct keep; [right|]; exact A|]. split; assumption.
+  - pose proof (retain_no_fp c now f r fm1 act1 Hr) as Eact.
+    destruct (retain c now (Some f) r fm1 act1) as [[r' fm''] act'']. cbn in Eact. subst act''.
+    assert (H' : (e_fp e =? f) || has_fp f r = true) by exact H. clear H. rename H' into H.
+    rewrite Hr, orb_false_r in H. subst act1. cbn [optN_eq]. rewrite H.
+    destruct keep; [|left; reflexivity].
+    right. exists e'. split; [left; reflexivity|]. split; [|reflexivity].
+    rewrite Hfp. apply N.eqb_eq. exact H.
+Qed.
+
+Lemma retain_AIp c now cs fm act cs' fm' act' :
+  retain c now (opt_fp act) cs fm act = (cs', fm', act') -> AIp cs act -> AIp cs' act'.
+Proof.
+  intros E H. destruct act as [a|].
+  - cbn in E. destruct (H a eq_refl) as (e & A & B).
+    assert (Hh : has_fp (p_fp a) cs = true).
+    { unfold has_fp. apply existsb_exists. exists e. split; [exact A|apply N.eqb_eq; exact B]. }
+    pose proof (retain_has_fp c now (p_fp a) cs fm (Some a) Hh) as R. rewrite E in R.
+    destruct R as [->|(x & X1 & X2 & ->)]; [apply AIp_None|].
+    intros a' Ea. inv Ea. exists x. split; [exact X1|reflexivity].
+  - cbn in E.
+    assert (G : forall cs fm, snd (retain c now None cs fm None) = None).
+    { clear. induction cs as [|e r IH]; intros fm; cbn; [reflexivity|].
+      destruct (fm_remove (e_fp e) fm) as [[p fm1]|].
+      - specialize (IH fm1). destruct (retain c now None r fm1 None) as [[r' fm''] act'']. exact IH.
+      - specialize (IH fm). destruct (retain c now None r fm None) as [[r' fm''] act'']. exact IH. }
+    specialize (G cs fm). rewrite E in G. cbn in G. subst act'. apply AIp_None.
+Qed.
+
+Lemma position_Some fp cs idx :
+  position fp cs = Some idx -> exists y, nth_error cs idx = Some y /\ e_fp y = fp.
+Proof.
+  revert idx. induction cs as [|e r IH]; intros idx H; cbn in H; [discriminate|].
+  destruct (e_fp e =? fp) eqn:E.
+  - inv H. exists e. split; [reflexivity|apply N.eqb_eq; exact E].
+  - destruct (position fp r) as [k|]; [|discriminate]. inv H. apply (IH k eq_refl).
+Qed.
+Lemma position_None fp cs : position fp cs = None -> forall e, In e cs -> e_fp e <> fp.
+Proof.
+  induction cs as [|x r IH]; intros H e He; [destruct He|]. cbn in H.
+  destruct (e_fp x =? fp) eqn:E; [discriminate|].
+  destruct (position fp r) eqn:P; [discriminate|].
+  destruct He as [<-|He]; [apply N.eqb_neq; exact E|apply IH; [reflexivity|exact He]].
+Qed.
+Lemma swap0_head idx cs y : nth_error cs idx = Some y -> exists t, swap0 idx cs = y :: t.
+Proof.
+  destruct idx as [|k]; destruct cs as [|x r]; cbn; intros H; try discriminate.
+  - inv H. eexists; reflexivity.
+  - rewrite H. eexists; reflexivity.
+Qed.
+
+Lemma merge_AIp now ex nw act target :
+  AIp ex act ->
+  let r := merge_new_paths decay now ex nw (opt_fp act) target in
+  AIp (fst r) act /\ snd r = None.
+Proof.
+  intros H. unfold merge_new_paths. destruct act as [a|]; cbn [opt_fp option_map].
+  - destruct (H a eq_refl) as (e & A & B).
+    destruct (position (p_fp a) ex) as [idx|] eqn:P.
+    + destruct (position_Some _ _ _ P) as (y & Y1 & Y2).
+      destruct (swap0_head idx ex y Y1) as (t & St). rewrite St.
+      destruct (merge_take decay now _ _ nw) as [k1 k2]. cbn.
+      split; [|reflexivity]. intros a' Ea. inv Ea. exists y. split; [left; reflexivity|exact Y2].
+    + exfalso. apply (position_None _ _ P e A B).
+  - destruct (merge_take decay now _ _ nw) as [k1 k2]. cbn. split; [apply AIp_None|reflexivity].
+Qed.
+
+Lemma maybe_update_active_AIp c now cs act :
+  AIp cs act ->
+  let r := maybe_update_active decay c now cs act in
+  AIp cs (fst r) /\ snd r = None.
+Proof.
+  intros H. unfold maybe_update_active.
+  assert (Hpn : snd (decide decay c now cs act) = None).
+  { unfold decide. destruct act as [a|]; [|reflexivity].
+    destruct (check_path_expiry a now (c_thresh c)); try reflexivity.
+    destruct (best_path c now cs); [|reflexivity].
+    destruct (H a eq_refl) as (e1 & A & B).
+    unfold active_entry.
+    destruct (find (fun e0 => e_fp e0 =? p_fp a) cs) eqn:F.
+    - destruct (Qltb _ _); reflexivity.
+    - exfalso. pose proof (find_none _ _ F e1 A) as X. cbn in X. rewrite B, N.eqb_refl in X. discriminate. }
+  destruct (decide decay c now cs act) as [d pn]. cbn in Hpn. subst pn. cbn. split; [|reflexivity].
+  unfold apply_decision.
+  assert (Hb : forall b, best_path c now cs = Some b -> AIp cs (Some (e_path b))).
+  { intros b E a Ea. inv Ea. exists b. split; [|reflexivity]. unfold best_path in E. apply find_some in E. tauto. }
+  destruct (optN_eq _ _).
+  - destruct d; [exact H|exact H|apply AIp_None].
+  - destruct (best_path c now cs) as [b|] eqn:Eb.
+    + destruct d; [exact H| |]; apply Hb; reflexivity.
+    + destruct d; [exact H|exact H|apply AIp_None].
+Qed.
+
+Definition NP (s : st) : Prop := AIp (s_cached s) (s_active s) /\ IMInv (s_im s) /\ s_panic s = None.
+
+Lemma update_path_cache_AIp c s fetched now :
+  AIp (s_cached s) (s_active s) ->
+  let r := update_path_cache decay c s fetched now in
+  AIp (fst (fst (fst r))) (snd (fst (fst r))) /\ snd r = None.
+Proof.
+  intros H. unfold update_path_cache.
+  destruct (retain c now (opt_fp (s_active s)) (s_cached s) (fm_of fetched) (s_active s)) as [[cs1 fm] act1] eqn:Er.
+  pose proof (retain_AIp _ _ _ _ _ _ _ _ Er H) as A1.
+  destruct fm as [|q fm']; [cbn; split; [exact A1|reflexivity]|].
+  pose proof (drain_paths decay c now (opt_fp act1) (s_chan s) cs1) as Ed.
+  destruct (drain decay c now (opt_fp act1) (s_chan s) cs1) as [cs2 h]. cbn in Ed.
+  assert (A2 : AIp cs2 act1) by (eapply AIp_paths; eauto).
+  match goal with |- context [merge_new_paths decay now cs2 ?cands (opt_fp act1) ?tg] =>
+    pose proof (merge_AIp now cs2 cands act1 tg A2) as M;
+    destruct (merge_new_paths decay now cs2 cands (opt_fp act1) tg) as [cs3 pn'] end.
+  cbn in *. exact M.
+Qed.
+
+Lemma fetch_and_update_NP c s now a jit : NP s -> NP (fetch_and_update pol decay c s now a jit).
+Proof.
+  intros (A & I & Pn). unfold fetch_and_update.
+  match goal with |- context [update_path_cache decay c s ?f now] =>
+    pose proof (update_path_cache_AIp c s f now A) as U;
+    destruct (update_path_cache decay c s f now) as [[[cs act] chan] pn] end.
+  cbn in U. destruct U as [U1 U2]. subst pn.
+  pose proof (maybe_update_active_AIp c now (rank decay now cs) act
+                (AIp_perm _ _ _ (Permutation_sym (rank_perm decay now cs)) U1)) as M.
+  destruct (maybe_update_active decay c now (rank decay now cs) act) as [act' pn2]. cbn in M. destruct M as [M1 M2]. subst pn2.
+  match goal with |- context [let '(failed, next) := ?x in _] => destruct x as [failed next] end.
+  split; [exact M1|]. split; [exact I|]. cbn. rewrite Pn. reflexivity.
+Qed.
+
+Lemma handle_issue_NP c s now m rest : NP s -> NP (handle_issue decay c s now m rest).
+Proof.
+  intros (A & I & Pn). unfold handle_issue, with_cached_active.
+  destruct (negb _); [split; [exact A|split; [exact I|cbn; rewrite Pn; reflexivity]]|].
+  pose proof (ingest_paths decay m now (opt_fp (s_active s)) (s_cached s)) as E1.
+  destruct (ingest_path_issue decay m now _ (s_cached s)) as [cs1 hit1]. cbn in E1.
+  pose proof (drain_paths decay c now (opt_fp (s_active s)) rest cs1) as E2.
+  destruct (drain decay c now _ rest cs1) as [cs2 hit2]. cbn in E2.
+  assert (A2 : AIp cs2 (s_active s)). { eapply AIp_paths; [|exact A]. congruence. }
+  destruct (hit1 || hit2).
+  - pose proof (maybe_update_active_AIp c now (rank decay now cs2) (s_active s)
+                  (AIp_perm _ _ _ (Permutation_sym (rank_perm decay now cs2)) A2)) as M.
+    destruct (maybe_update_active decay c now (rank decay now cs2) (s_active s)) as [act pn]. cbn in M.
+    destruct M as [M1 M2]. subst pn. split; [exact M1|]. split; [exact I|]. cbn. rewrite Pn. reflexivity.
+  - split; [exact A2|]. split; [exact I|]. cbn. rewrite Pn. reflexivity.
+Qed.
+
+Lemma step_NP c s e : NP s -> NP (fst (step pol decay c s e)).
+Proof.
+  intros N0. pose proof N0 as (A & I & Pn). unfold step. destruct (s_dead s); [exact N0|].
+  destruct e as [now a jit|now i|now|now m|now|now]; cbn [fst].
+  - unfold maintain. destruct (_ && _); [split; [apply AIp_None|split; assumption]|].
+    destruct (s_next_refetch _ <=? now); cbn [fst].
+    + apply fetch_and_update_NP. destruct (s_next_idle s <=? now); exact N0.
+    + destruct (s_next_idle s <=? now); exact N0.
+  - destruct (target_type i) as [t|]; [|exact N0].
+    pose proof (add_issue_inv c (s_im s) i (mkMarker t now (penalty i)) I) as X.
+    destruct (add_issue c (s_im s) i _) as [[im bc] pn]. cbn in X. destruct X as (X1 & X2 & _). subst pn.
+    split; [exact A|]. split; [exact X1|]. cbn. rewrite Pn. reflexivity.
+  - destruct (s_chan s); [exact N0|]. apply handle_issue_NP, N0.
+  - apply handle_issue_NP, N0.
+  - destruct (hand_out s now); exact N0.
+  - destruct (s_active s); [destruct (expired_at_handout _ _)|]; exact N0.
+Qed.
+
+Lemma run_NP c evs : forall s, NP s -> NP (run pol decay c s evs).
+Proof. induction evs as [|e r IH]; intros s H; cbn; [exact H|]. apply IH, step_NP, H. Qed.
+
+Lemma init_NP c t0 : NP (init_st c t0).
+Proof.
+  split; [apply AIp_None|]. split; [|reflexivity].
+  constructor; cbn; try constructor; try reflexivity. intros i ts [].
+Qed.
+End NoPanic.
+
+(** ** the slot is served by a cached entry, fingerprints are unique; a re-evaluation leaves a
+       valid path in the slot whenever a valid path is cached *)
+Section Served.
+Variable pol : path -> option bool.
+Variable decay : Q -> N -> N -> Q.
+
+Definition fps (cs : list entry) : list N := map e_fp cs.
+Definition Sync (cs : list entry) (act : option path) : Prop :=
+  forall a, act = Some a -> exists e, In e cs /\ e_path e = a.
+
+Lemma Sync_None cs : Sync cs None.
+Proof. intros a H; discriminate. Qed.
+Lemma Sync_AIp cs act : Sync cs act -> AIp cs act.
+Proof. intros H a Ha. destruct (H a Ha) as (e & A & B). exists e. split; [exact A|]. unfold e_fp. rewrite B. reflexivity. Qed.
+
+Lemma fps_paths cs cs' : map e_path cs' = map e_path cs -> fps cs' = fps cs.
+Proof.
+  intros E. unfold fps, e_fp. rewrite <- (map_map e_path p_fp cs'), <- (map_map e_path p_fp cs), E. reflexivity.
+Qed.
+Lemma Sync_paths cs cs' act : map e_path cs' = map e_path cs -> Sync cs act -> Sync cs' act.
+Proof.
+  intros E H a Ha. destruct (H a Ha) as (e & A & B).
+  apply (in_map e_path) in A. rewrite <- E in A. apply in_map_iff in A. destruct A as (e' & A1 & A2).
+  exists e'. split; [exact A2|congruence].
+Qed.
+Lemma Sync_perm cs cs' act : Permutation cs cs' -> Sync cs act -> Sync cs' act.
+Proof. intros P H a Ha. destruct (H a Ha) as (e & A & B). exists e. split; [eapply Permutation_in; eauto|exact B]. Qed.
+
+Lemma NoDup_fp_inj cs e y : NoDup (fps cs) -> In e cs -> In y cs -> e_fp e = e_fp y -> e = y.
+Proof.
+  induction cs as [|x r IH]; intros N He Hy E; [destruct He|]. cbn in N. inv N.
+  destruct He as [<-|He], Hy as [<-|Hy]; try reflexivity.
+  - exfalso. apply H1. rewrite E. apply in_map. exact Hy.
+  - exfalso. apply H1. rewrite <- E. apply in_map. exact He.
+  - apply IH; assumption.
+Qed.
+
+(* re-evaluation *)
+Lemma reeval_valid c now cs act :
+  NoDup (fps cs) -> Sync cs act ->
+  (exists e, In e cs /\ is_valid c now (e_path e) = true) ->
+  exists p, fst (maybe_update_active decay c now cs act) = Some p /\ is_valid c now p = true.
+Proof.
+  intros ND Sy (v & Hv & Vv). unfold maybe_update_active.
+  destruct (find (fun e => is_valid c now (e_path e)) cs) as [b|] eqn:Fb.
+  2:{ exfalso. pose proof (find_none _ _ Fb v Hv) as X. cbn in X. congruence. }
+  pose proof Fb as Fb'. apply find_some in Fb'. destruct Fb' as [Inb Vb].
+  assert (Eb : best_path c now cs = Some b) by exact Fb.
+  destruct (decide decay c now cs act) as [d pn] eqn:Ed. cbn [fst]. rewrite Eb.
+  unfold apply_decision. destruct act as [a|]; cbn [opt_fp option_map optN_eq].
+  - destruct (p_fp a =? e_fp b) eqn:Ef.
+    + (* the best entry is the active one: the slot's path is its path *)
+      apply N.eqb_eq in Ef. destruct (Sy a eq_refl) as (ea & A1 & A2).
+      assert (ea = b). { apply (NoDup_fp_inj cs); try assumption. unfold e_fp. rewrite A2. exact Ef. }
+      subst ea. subst a.
+      assert (d <> ForceReplace).
+      { unfold decide in Ed. unfold is_valid in Vb. destruct (check_path_expiry (e_path b) now (c_thresh c)); try discriminate.
+        rewrite Eb in Ed. destruct (active_entry _ cs); [destruct (Qltb _ _)|]; inv Ed; discriminate. }
+      exists (e_path b). split; [destruct d; try reflexivity; congruence|exact Vb].
+    + destruct d eqn:Dd.
+      * (* NoChange only for a valid active path *)
+        exists a. split; [reflexivity|]. unfold decide in Ed. unfold is_valid.
+        destruct (check_path_expiry a now (c_thresh c)); [reflexivity| |]; rewrite ?Eb in Ed; inv Ed.
+      * exists (e_path b). split; [reflexivity|exact Vb].
+      * exists (e_path b). split; [reflexivity|exact Vb].
+  - unfold decide in Ed. inv Ed. exists (e_path b). split; [reflexivity|exact Vb].
+Qed.
+
+(* --- preservation of uniqueness and of Sync --- *)
+Lemma retain_fps_incl c now afp cs : forall fm act x,
+  In x (fst (fst (retain c now afp cs fm act))) -> In (e_fp x) (fps cs).
+Proof.
+  induction cs as [|e r IH]; intros fm act x; cbn; [tauto|].
+  destruct (fm_remove (e_fp e) fm) as [[p fm1]|] eqn:Er.
+  - match goal with |- context [retain c now afp r fm1 ?a] => specialize (IH fm1 a x);
+      destruct (retain c now afp r fm1 a) as [[r' fm''] act''] end.
+    cbn in *. destruct (negb _); cbn; intros H.
+    + destruct H as [<-|H]; [left; unfold e_fp; cbn; symmetry; eapply fm_remove_fp; eauto|right; auto].
+    + right; auto.
+  - match goal with |- context [retain c now afp r fm ?a] => specialize (IH fm a x);
+      destruct (retain c now afp r fm a) as [[r' fm''] act''] end.
+    cbn in *. destruct (negb _); cbn; intros H.
+    + destruct H as [<-|H]; [left; reflexivity|right; auto].
+    + right; auto.
+Qed.
+
+Lemma retain_NoDup c now afp cs : forall fm act,
+  NoDup (fps cs) -> NoDup (fps (fst (fst (retain c now afp cs fm act)))).
+Proof.
+  induction cs as [|e r IH]; intros fm act N; cbn; [constructor|]. cbn in N. inv N.
+  destruct (fm_remove (e_fp e) fm) as [[p fm1]|] eqn:Er.
+  - match goal with |- context [retain c now afp r fm1 ?a] =>
+      pose proof (retain_fps_incl c now afp r fm1 a) as Inc; specialize (IH fm1 a H2);
+      destruct (retain c now afp r fm1 a) as [[r' fm''] act''] end.
+    cbn in *. destruct (negb _); cbn; [|exact IH].
+    constructor; [|exact IH]. unfold e_fp at 1. cbn. rewrite (fm_remove_fp _ _ _ _ Er).
+    intros X. apply in_map_iff in X. destruct X as (y & Y1 & Y2). apply H1. rewrite <- Y1. apply Inc. exact Y2.
+  - match goal with |- context [retain c now afp r fm ?a] =>
+      pose proof (retain_fps_incl c now afp r fm a) as Inc; specialize (IH fm a H2);
+      destruct (retain c now afp r fm a) as [[r' fm''] act''] end.
+    cbn in *. destruct (negb _); cbn; [|exact IH].
+    constructor; [|exact IH].
+    intros X. apply in_map_iff in X. destruct X as (y & Y1 & Y2). apply H1. rewrite <- Y1. apply Inc. exact Y2.
+Qed.
+
+(* fetched map: unique fingerprints *)
+Lemma fm_insert_fps p fm x : In x (map p_fp (fm_insert p fm)) <-> x = p_fp p \/ In x (map p_fp fm).
+Proof.
+  induction fm as [|q r IH]; cbn; [intuition|].
+  destruct (p_fp q =? p_fp p) eqn:E; cbn.
+  - apply N.eqb_eq in E. rewrite E. intuition.
+  - rewrite IH. intuition.
+Qed.
+Lemma fm_insert_NoDup p fm : NoDup (map p_fp fm) -> NoDup (map p_fp (fm_insert p fm)).
+Proof.
+  induction fm as [|q r IH]; cbn; intros N; [repeat constructor; intros []|]. inv N.
+  destruct (p_fp q =? p_fp p) eqn:E; cbn.
+  - apply N.eqb_eq in E. constructor; [rewrite <- E; exact H1|exact H2].
+  - constructor; [|apply IH; exact H2]. rewrite fm_insert_fps. intros [X|X]; [apply N.eqb_neq in E; congruence|contradiction].
+Qed.
+Lemma fm_of_NoDup ps : NoDup (map p_fp (fm_of ps)).
+Proof.
+  unfold fm_of. assert (G : forall acc, NoDup (map p_fp acc) -> NoDup (map p_fp (fold_left (fun fm p => fm_insert p fm) ps acc))).
+  { induction ps as [|p r IH]; intros acc N; cbn; [exact N|]. apply IH, fm_insert_NoDup, N. }
+  apply G. constructor.
+Qed.
+
+Lemma fm_remove_spec fp fm p fm' :
+  fm_remove fp fm = Some (p, fm') -> NoDup (map p_fp fm) ->
+  NoDup (map p_fp fm') /\ ~ In fp (map p_fp fm') /\ (forall x, In x (map p_fp fm') -> In x (map p_fp fm)).
+Proof.
+  revert p fm'. induction fm as [|q r IH]; intros p fm' E N; cbn in E; [discriminate|]. cbn in N. inv N.
+  destruct (p_fp q =? fp) eqn:Eq.
+  - inv E. apply N.eqb_eq in Eq. subst fp. split; [exact H2|]. split; [exact H1|]. intros x Hx. right. exact Hx.
+  - destruct (fm_remove fp r) as [[p0 r']|] eqn:E0; [|discriminate]. inv E.
+    destruct (IH _ _ eq_refl H2) as (A & B & C). cbn. split.
+    + constructor; [intros X; apply H1, C, X|exact A].
+    + split; [intros [X|X]; [apply N.eqb_neq in Eq; congruence|contradiction]|].
+      intros x [X|X]; [left; exact X|right; apply C, X].
+Qed.
+Lemma fm_remove_none fp fm : fm_remove fp fm = None -> ~ In fp (map p_fp fm).
+Proof.
+  induction fm as [|q r IH]; cbn; [tauto|]. destruct (p_fp q =? fp) eqn:Eq; [discriminate|].
+  destruct (fm_remove fp r) as [[p0 r']|]; [discriminate|]. intros _ [X|X]; [apply N.eqb_neq in Eq; congruence|apply IH; auto].
+Qed.
+
+(* after the retain pass the remaining fetched paths are new: none of them has the fingerprint
+   of a cached entry *)
+Lemma retain_fm_fresh c now afp cs : forall fm act,
+  NoDup (map p_fp fm) ->
+  let r := retain c now afp cs fm act in
+  NoDup (map p_fp (snd (fst r))) /\
+  (forall x, In x (map p_fp (snd (fst r))) -> In x (map p_fp fm) /\ ~ In x (fps cs)).
+Proof.
+  induction cs as [|e r IH]; intros fm act N; cbn; [split; [exact N|intros x Hx; split; [exact Hx|intros []]]|].
+  destruct (fm_remove (e_fp e) fm) as [[p fm1]|] eqn:Er.
+  - destruct (fm_remove_spec _ _ _ _ Er N) as (N1 & F1 & I1).
+    match goal with |- context [retain c now afp r fm1 ?a] => specialize (IH fm1 a N1);
+      destruct (retain c now afp r fm1 a) as [[r' fm''] act''] end.
+    cbn in *. destruct IH as [A B]. split; [exact A|]. intros x Hx. destruct (B x Hx) as [B1 B2].
+    split; [apply I1, B1|]. intros [X|X]; [subst x; contradiction|contradiction].
+  - pose proof (fm_remove_none _ _ Er) as F1.
+    match goal with |- context [retain c now afp r fm ?a] => specialize (IH fm a N);
+      destruct (retain c now afp r fm a) as [[r' fm''] act''] end.
+    cbn in *. destruct IH as [A B]. split; [exact A|]. intros x Hx. destruct (B x Hx) as [B1 B2].
+    split; [exact B1|]. intros [X|X]; [subst x; contradiction|contradiction].
+Qed.
+
+Lemma In_firstn {A} n (l : list A) x : In x (firstn n l) -> In x l.
+Proof.
+  revert n. induction l as [|a l IH]; intros n H; [rewrite firstn_nil in H; exact H|].
+  destruct n; cbn in H; [destruct H|]. destruct H as [H|H]; [left; exact H|right; eapply IH; exact H].
+Qed.
+Lemma NoDup_firstn' {A} n (l : list A) : NoDup l -> NoDup (firstn n l).
+Proof.
+  revert n. induction l as [|a l IH]; intros n N; [rewrite firstn_nil; constructor|].
+  destruct n; cbn; [constructor|]. inv N. constructor; [|apply IH; assumption].
+  intros X. apply H1. eapply In_firstn. exact X.
+Qed.
+
+Lemma NoDup_app_intro {A} (l1 l2 : list A) :
+  NoDup l1 -> NoDup l2 -> (forall x, In x l1 -> ~ In x l2) -> NoDup (l1 ++ l2).
+Proof.
+  induction l1 as [|a l IH]; intros N1 N2 D; [exact N2|]. inv N1. cbn. constructor.
+  - rewrite in_app_iff. intros [X|X]; [contradiction|]. apply (D a (or_introl eq_refl) X).
+  - apply IH; [assumption|assumption|]. intros x Hx. apply D. right. exact Hx.
+Qed.
+
+Lemma merge_NoDup now ex nw afp target :
+  NoDup (fps ex) -> NoDup (fps nw) -> (forall x, In x (fps nw) -> ~ In x (fps ex)) ->
+  NoDup (fps (fst (merge_new_paths decay now ex nw afp target))).
+Proof.
+  intros N1 N2 D. unfold merge_new_paths.
+  set (pre := match afp with
+              | Some fp => match position fp ex with
+                           | Some idx => (swap0 idx ex, 1%nat, None)
+                           | None => (ex, 0%nat, Some P_MERGE_ACTIVE)
+                           end
+              | None => (ex, 0%nat, None)
+              end).
+  assert (Hp : Permutation (fst (fst pre)) ex).
+  { subst pre. destruct afp as [fp|]; [|reflexivity]. destruct (position fp ex); [|reflexivity]. cbn. apply swap0_perm. }
+  destruct pre as [[ex1 ke0] pn]. cbn in Hp.
+  destruct (merge_take decay now _ _ nw) as [k1 k2]. cbn.
+  unfold fps. rewrite map_app. apply NoDup_app_intro.
+  - rewrite <- firstn_map. apply NoDup_firstn'. eapply Permutation_NoDup; [symmetry; apply Permutation_map; exact Hp|exact N1].
+  - rewrite <- firstn_map. apply NoDup_firstn', N2.
+  - intros x H1 H2. rewrite <- firstn_map in H1, H2. apply In_firstn in H1. apply In_firstn in H2.
+    apply (D x H2). eapply Permutation_in; [apply Permutation_map; exact Hp|exact H1].
+Qed.
+
+Lemma merge_Sync now ex nw act target :
+  NoDup (fps ex) -> Sync ex act -> Sync (fst (merge_new_paths decay now ex nw (opt_fp act) target)) act.
+Proof.
+  intros N H. unfold merge_new_paths. destruct act as [a|]; cbn [opt_fp option_map]; [|intros a Ha; discriminate].
+  destruct (H a eq_refl) as (e & A & B).
+  destruct (position (p_fp a) ex) as [idx|] eqn:P.
+  - destruct (position_Some _ _ _ P) as (y & Y1 & Y2).
+    assert (y = e).
+    { apply (NoDup_fp_inj ex); [exact N|eapply nth_error_In; eauto|exact A|]. unfold e_fp at 2. rewrite B. exact Y2. }
+    subst y. destruct (swap0_head idx ex e Y1) as (t & St). rewrite St.
+    destruct (merge_take decay now _ _ nw) as [k1 k2]. cbn.
+    intros a' Ea. inv Ea. exists e. split; [left; reflexivity|reflexivity].
+  - exfalso. apply (position_None _ _ P e A). unfold e_fp. rewrite B. reflexivity.
+Qed.
+
+Definition SI (s : st) : Prop := NoDup (fps (s_cached s)) /\ Sync (s_cached s) (s_active s).
+
+Lemma update_path_cache_SI c s fetched now :
+  SI s ->
+  let r := update_path_cache decay c s fetched now in
+  NoDup (fps (fst (fst (fst r)))) /\ Sync (fst (fst (fst r))) (snd (fst (fst r))).
+Proof.
+  intros [N Sy]. unfold update_path_cache.
+  pose proof (retain_NoDup c now (opt_fp (s_active s)) (s_cached s) (fm_of fetched) (s_active s) N) as N1.
+  pose proof (retain_fm_fresh c now (opt_fp (s_active s)) (s_cached s) (fm_of fetched) (s_active s) (fm_of_NoDup fetched)) as F.
+  pose proof (retain_fps_incl c now (opt_fp (s_active s)) (s_cached s) (fm_of fetched) (s_active s)) as Inc.
+  assert (Sy1 : Sync (fst (fst (retain c now (opt_fp (s_active s)) (s_cached s) (fm_of fetched) (s_active s))))
+                     (snd (retain c now (opt_fp (s_active s)) (s_cached s) (fm_of fetched) (s_active s)))).
+  { destruct (s_active s) as [a|] eqn:Ea.
+    - cbn [opt_fp option_map]. destruct (Sy a eq_refl) as (e & A & B).
+      assert (Hh : has_fp (p_fp a) (s_cached s) = true).
+      { unfold has_fp. apply existsb_exists. exists e. split; [exact A|]. unfold e_fp. rewrite B. apply N.eqb_refl. }
+      pose proof (retain_has_fp c now (p_fp a) (s_cached s) (fm_of fetched) (Some a) Hh) as R.
+      destruct (retain c now (Some (p_fp a)) (s_cached s) (fm_of fetched) (Some a)) as [[cs' fm'] act']. cbn.
+      destruct R as [->|(x & X1 & X2 & ->)]; [apply Sync_None|].
+      intros a' E. inv E. exists x. split; [exact X1|reflexivity].
+    - cbn [opt_fp option_map].
+      assert (G : forall cs fm, snd (retain c now None cs fm None) = None).
+      { clear. induction cs as [|e r IH]; intros fm; cbn; [reflexivity|].
+        destruct (fm_remove (e_fp e) fm) as [[p fm1]|].
+        - specialize (IH fm1). destruct (retain c now None r fm1 None) as [[r' fm''] act'']. exact IH.
+        - specialize (IH fm). destruct (retain c now None r fm None) as [[r' fm''] act'']. exact IH. }
+      rewrite G. apply Sync_None. }
+  destruct (retain c now (opt_fp (s_active s)) (s_cached s) (fm_of fetched) (s_active s)) as [[cs1 fm] act1].
+  cbn in N1, F, Inc, Sy1. destruct F as [F1 F2].
+  destruct fm as [|q fm']; [cbn; split; assumption|].
+  pose proof (drain_paths decay c now (opt_fp act1) (s_chan s) cs1) as Ed.
+  destruct (drain decay c now (opt_fp act1) (s_chan s) cs1) as [cs2 h]. cbn in Ed.
+  assert (N2 : NoDup (fps cs2)) by (rewrite (fps_paths _ _ Ed); exact N1).
+  assert (Sy2 : Sync cs2 act1) by (eapply Sync_paths; eauto).
+  set (cands := rank decay now (map (fun p => apply_cached_issues decay (s_im s) (mkEntry p (mkRel 0 now)) now) (q :: fm'))).
+  assert (Pc : Permutation (fps cands) (map p_fp (q :: fm'))).
+  { subst cands. unfold fps. etransitivity; [apply Permutation_map, rank_perm|].
+    generalize (q :: fm'). intros L. rewrite map_map.
+    replace (map (fun x => e_fp (apply_cached_issues decay (s_im s) (mkEntry x (mkRel 0 now)) now)) L) with (map p_fp L); [reflexivity|].
+    apply map_ext. intros p. unfold e_fp. rewrite apply_cached_issues_path. reflexivity. }
+  assert (Nc : NoDup (fps cands)) by (eapply Permutation_NoDup; [symmetry; exact Pc|exact F1]).
+  assert (Dc : forall x, In x (fps cands) -> ~ In x (fps cs2)).
+  { intros x Hx Hx2. assert (Hf : In x (map p_fp (q :: fm'))) by (eapply Permutation_in; eauto).
+    destruct (F2 x Hf) as [_ Nin]. apply Nin. rewrite (fps_paths _ _ Ed) in Hx2.
+    unfold fps in Hx2. apply in_map_iff in Hx2. destruct Hx2 as (y & Y1 & Y2). rewrite <- Y1. apply Inc. exact Y2. }
+  pose proof (merge_NoDup now cs2 cands (opt_fp act1) (c_max_cached c) N2 Nc Dc) as M1.
+  pose proof (merge_Sync now cs2 cands act1 (c_max_cached c) N2 Sy2) as M2.
+  fold cands. destruct (merge_new_paths decay now cs2 cands (opt_fp act1) (c_max_cached c)) as [cs3 pn']. cbn in *.
+  split; assumption.
+Qed.
+
+Lemma maybe_update_active_Sync c now cs act :
+  Sync cs act -> Sync cs (fst (maybe_update_active decay c now cs act)).
+Proof.
+  intros H. unfold maybe_update_active. destruct (decide decay c now cs act) as [d pn]. cbn.
+  unfold apply_decision.
+  assert (Hb : forall b, best_path c now cs = Some b -> Sync cs (Some (e_path b))).
+  { intros b E a Ea. inv Ea. exists b. split; [|reflexivity]. unfold best_path in E. apply find_some in E. tauto. }
+  destruct (optN_eq _ _).
+  - destruct d; [exact H|exact H|apply Sync_None].
+  - destruct (best_path c now cs) as [b|] eqn:Eb.
+    + destruct d; [exact H| |]; apply Hb; reflexivity.
+    + destruct d; [exact H|exact H|apply Sync_None].
+Qed.
+
+Lemma rank_fps_NoDup now cs : NoDup (fps cs) -> NoDup (fps (rank decay now cs)).
+Proof. intros N. eapply Permutation_NoDup; [symmetry; apply Permutation_map, rank_perm|exact N]. Qed.
+
+Lemma fetch_and_update_SI c s now a jit : SI s -> SI (fetch_and_update pol decay c s now a jit).
+Proof.
+  intros I. unfold fetch_and_update.
+  match goal with |- context [update_path_cache decay c s ?f now] =>
+    pose proof (update_path_cache_SI c s f now I) as U;
+    destruct (update_path_cache decay c s f now) as [[[cs act] chan] pn] end.
+  cbn in U. destruct U as [U1 U2].
+  pose proof (maybe_update_active_Sync c now (rank decay now cs) act
+                (Sync_perm _ _ _ (Permutation_sym (rank_perm decay now cs)) U2)) as M.
+  destruct (maybe_update_active decay c now (rank decay now cs) act) as [act' pn2]. cbn in M.
+  match goal with |- context [let '(failed, next) := ?x in _] => destruct x as [failed next] end.
+  split; cbn; [apply rank_fps_NoDup; exact U1|exact M].
+Qed.
+
+Lemma handle_issue_SI c s now m rest : SI s -> SI (handle_issue decay c s now m rest).
+Proof.
+  intros [N Sy]. unfold handle_issue, with_cached_active.
+  destruct (negb _); [split; assumption|].
+  pose proof (ingest_paths decay m now (opt_fp (s_active s)) (s_cached s)) as E1.
+  destruct (ingest_path_issue decay m now _ (s_cached s)) as [cs1 hit1]. cbn in E1.
+  pose proof (drain_paths decay c now (opt_fp (s_active s)) rest cs1) as E2.
+  destruct (drain decay c now _ rest cs1) as [cs2 hit2]. cbn in E2.
+  assert (E : map e_path cs2 = map e_path (s_cached s)) by congruence.
+  assert (N2 : NoDup (fps cs2)) by (rewrite (fps_paths _ _ E); exact N).
+  assert (S2 : Sync cs2 (s_active s)) by (eapply Sync_paths; eauto).
+  destruct (hit1 || hit2).
+  - pose proof (maybe_update_active_Sync c now (rank decay now cs2) (s_active s)
+                  (Sync_perm _ _ _ (Permutation_sym (rank_perm decay now cs2)) S2)) as M.
+    destruct (maybe_update_active decay c now (rank decay now cs2) (s_active s)) as [act pn]. cbn in M.
+    split; cbn; [apply rank_fps_NoDup; exact N2|exact M].
+  - split; assumption.
+Qed.
+
+Lemma step_SI c s e : SI s -> SI (fst (step pol decay c s e)).
+Proof.
+  intros I. pose proof I as [N Sy]. unfold step. destruct (s_dead s); [exact I|].
+  destruct e as [now a jit|now i|now|now m|now|now]; cbn [fst].
+  - unfold maintain. destruct (_ && _); [split; [exact N|apply Sync_None]|].
+    destruct (s_next_refetch _ <=? now); cbn [fst].
+    + apply fetch_and_update_SI. destruct (s_next_idle s <=? now); exact I.
+    + destruct (s_next_idle s <=? now); exact I.
+  - destruct (target_type i) as [t|]; [|exact I].
+    destruct (add_issue c (s_im s) i _) as [[im bc] pn]. exact I.
+  - destruct (s_chan s); [exact I|]. apply handle_issue_SI, I.
+  - apply handle_issue_SI, I.
+  - destruct (hand_out s now); exact I.
+  - destruct (s_active s); [destruct (expired_at_handout _ _)|]; exact I.
+Qed.
+
+Lemma run_SI c evs : forall s, SI s -> SI (run pol decay c s evs).
+Proof. induction evs as [|e r IH]; intros s H; cbn; [exact H|]. apply IH, step_SI, H. Qed.
+Lemma init_SI c t0 : SI (init_st c t0).
+Proof. split; [constructor|apply Sync_None]. Qed.
+
+(* earliest_expiry is a lower bound of every cached expiry *)
+Lemma earliest_expiry_le cs e x :
+  In e cs -> p_exp (e_path e) = Some x -> exists m, earliest_expiry cs = Some m /\ m <= x.
+Proof.
+  unfold earliest_expiry.
+  assert (G : forall cs acc, (forall a, acc = Some a -> exists m, fold_left (fun acc e => match p_exp (e_path e) with
+                          | Some x => match acc with Some a => Some (N.min a x) | None => Some x end
+                          | None => acc end) cs acc = Some m /\ m <= a)).
+  { induction cs0 as [|y r IH]; intros acc a Ha; cbn; [exists a; split; [exact Ha|lia]|].
+    subst acc. destruct (p_exp (e_path y)) as [z|].
+    - destruct (IH (Some (N.min a z)) _ eq_refl) as (m & M1 & M2). exists m. split; [exact M1|lia].
+    - apply IH. reflexivity. }
+  revert e x. induction cs as [|y r IH]; intros e x He Hx; [destruct He|]. cbn.
+  destruct He as [<-|He].
+  - rewrite Hx. apply (G r (Some x) x eq_refl).
+  - destruct (p_exp (e_path y)) as [z|].
+    + (* generalise over the accumulator *)
+      clear IH.
+      assert (K : forall r acc, In e r -> exists m, fold_left (fun acc e => match p_exp (e_path e) with
+                          | Some x => match acc with Some a => Some (N.min a x) | None => Some x end
+                          | None => acc end) r acc = Some m /\ m <= x).
+      { induction r0 as [|w r0 IHr]; intros acc Hin; [destruct Hin|]. cbn. destruct Hin as [<-|Hin].
+        - rewrite Hx. destruct acc as [a|].
+          + destruct (G r0 (Some (N.min a x)) _ eq_refl) as (m & M1 & M2). exists m. split; [exact M1|lia].
+          + apply (G r0 (Some x) x eq_refl).
+        - apply IHr. exact Hin. }
+      apply K. exact He.
+    + apply (IH e x He Hx).
+Qed.
+
+Lemma valid_expiry c now p : is_valid c now p = true -> exists x, p_exp p = Some x /\ now + c_thresh c < x * NS.
+Proof.
+  unfold is_valid, check_path_expiry, expiry_ns. destruct (p_exp p) as [x|].
+  - intros H. exists x. split; [reflexivity|].
+    destruct (x * NS <=? now) eqn:E1; [discriminate|]. apply N.leb_gt in E1.
+    destruct (x * NS - now <=? c_thresh c) eqn:E2; [discriminate|]. apply N.leb_gt in E2. lia.
+  - intros H. exfalso. change (0 * NS) with 0 in H. destruct now; cbn in H; discriminate.
+Qed.
+
+(* after a lookup: if a valid path is cached the slot holds a valid path, and it outlives the
+   time of the next scheduled lookup *)
+Lemma fetch_serves c s now a jit :
+  cfg_valid c = true -> c_bo_max c <= c_thresh c -> SI s ->
+  let s' := fetch_and_update pol decay c s now a jit in
+  (exists e, In e (s_cached s') /\ is_valid c now (e_path e) = true) ->
+  exists p x, s_active s' = Some p /\ is_valid c now p = true /\ p_exp p = Some x /\
+              s_next_refetch s' <= x * NS /\ s_dead s' = false.
+Proof.
+  intros V Hbo I. unfold cfg_valid in V. apply andb_prop in V. destruct V as [V1 V2].
+  apply negb_true_iff, N.ltb_ge in V1. apply negb_true_iff, N.ltb_ge in V2.
+  unfold fetch_and_update.
+  match goal with |- context [update_path_cache decay c s ?f now] =>
+    pose proof (update_path_cache_SI c s f now I) as U;
+    destruct (update_path_cache decay c s f now) as [[[cs act] chan] pn] end.
+  cbn in U. destruct U as [U1 U2].
+  assert (N3 : NoDup (fps (rank decay now cs))) by (apply rank_fps_NoDup; exact U1).
+  assert (S3 : Sync (rank decay now cs) act) by (eapply Sync_perm; [symmetry; apply rank_perm|exact U2]).
+  pose proof (maybe_update_active_Sync c now (rank decay now cs) act S3) as M.
+  pose proof (reeval_valid c now (rank decay now cs) act N3 S3) as R.
+  destruct (maybe_update_active decay c now (rank decay now cs) act) as [act' pn2]. cbn in M, R.
+  match goal with |- context [let '(failed, next) := ?x in _] => remember x as fn eqn:Efn end.
+  destruct fn as [failed next]. cbn. intros Hv.
+  destruct (R Hv) as (p & Ep & Vp). subst act'.
+  destruct (valid_expiry c now p Vp) as (x & Ex & Lx).
+  exists p, x. split; [reflexivity|]. split; [exact Vp|]. split; [exact Ex|]. split; [|reflexivity].
+  destruct (M p eq_refl) as (e & He & Pe).
+  assert (He' : In e cs) by (apply (rank_In decay now cs); exact He).
+  assert (Ex' : p_exp (e_path e) = Some x) by (rewrite Pe; exact Ex).
+  match type of Efn with _ = match ?r with _ => _ end => destruct r end; inv Efn.
+  - destruct (earliest_expiry_le cs e x He' Ex') as (m & Em & Lm). rewrite Em.
+    assert (m * NS <= x * NS) by (apply N.mul_le_mono_r; exact Lm). lia.
+  - unfold backoff_duration. lia.
+Qed.
+End Served.
